@@ -197,6 +197,110 @@ def arrays(inp):
     return {'violates': bool(bad), 'apis': names, 'detail': bad[:6]}
 
 
+def stored_arrays(inp):
+    """library objects and RESULTS built from complex128 caller arrays (no dtype conversion needed, so only an explicit copy
+    separates them) must not follow later in-place changes of those arrays"""
+    import oqupy
+    from oqupy import dynamics as D, process_tensor as P, mps_mpo as M, control as Ctl
+    rng = np.random.default_rng(3)
+
+    def c(*shape):
+        return np.ascontiguousarray(rng.normal(size=shape) + 1j * rng.normal(size=shape))
+    sx, sz = oqupy.operators.sigma('x'), oqupy.operators.sigma('z')
+    sites = {}
+
+    def s_parse():
+        a = c(2, 2)
+        out, _ = D._parse_state(a, None)
+        return [a], lambda: [out]
+    sites['_parse_state'] = s_parse
+
+    def s_dynadd():
+        a = c(2, 2)
+        d = D.Dynamics()
+        d.add(0.0, a)
+        return [a], lambda: [d.states[0]]
+    sites['Dynamics.add'] = s_dynadd
+
+    def s_dynctor():
+        a = c(2, 2)
+        d = D.Dynamics(times=[0.0], states=[a])
+        return [a], lambda: [d.states[0]]
+    sites['Dynamics'] = s_dynctor
+
+    def s_cd():
+        rho = np.array([[0.7, 0.1 - 0.2j], [0.1 + 0.2j, 0.3]])
+        d = oqupy.compute_dynamics(oqupy.System(0.3 * sx + 0.1 * sz), initial_state=rho, dt=0.1, num_steps=3, progress_type='silent')
+        return [rho], lambda: list(d.states)
+    sites['compute_dynamics result'] = s_cd
+
+    def s_cdf():
+        rho = np.array([[0.7, 0.1 - 0.2j], [0.1 + 0.2j, 0.3]])
+        sysf = oqupy.TimeDependentSystemWithField(lambda t, a: 0.3 * sx + a.real * sz)
+        mfs = oqupy.MeanFieldSystem([sysf, sysf], field_eom=lambda t, st, a: -0.1j * a)
+        d = oqupy.compute_dynamics_with_field(mfs, initial_field=0.1 + 0j, dt=0.1, num_steps=2, initial_state_list=[rho, rho],
+                                              progress_type='silent')
+        return [rho], lambda: [x for sd in d.system_dynamics for x in sd.states]
+    sites['compute_dynamics_with_field result'] = s_cdf
+
+    def s_pt(which):
+        def f():
+            pt = P.SimpleProcessTensor(hilbert_space_dimension=2)
+            if which == 'initial':
+                a = c(1, 4)
+                pt.set_initial_tensor(a)
+                return [a], lambda: [pt.get_initial_tensor()]
+            if which == 'mpo':
+                a = c(1, 1, 4, 4)
+                pt.set_mpo_tensor(0, a)
+                return [a], lambda: [pt.get_mpo_tensor(0, transformed=False)]
+            a = c(1)
+            pt.set_cap_tensor(0, a)
+            return [a], lambda: [pt.get_cap_tensor(0)]
+        return f
+    sites['SimpleProcessTensor.set_initial_tensor'] = s_pt('initial')
+    sites['SimpleProcessTensor.set_mpo_tensor'] = s_pt('mpo')
+    sites['SimpleProcessTensor.set_cap_tensor'] = s_pt('cap')
+
+    def s_ptctor():
+        a, b = c(4, 3), c(3, 4)
+        pt = P.SimpleProcessTensor(hilbert_space_dimension=2, transform_in=a, transform_out=b)
+        return [a, b], lambda: [pt.transform_in, pt.transform_out]
+    sites['SimpleProcessTensor.__init__'] = s_ptctor
+
+    def s_gate():
+        a, b = c(4, 4, 3), c(3, 4, 4)
+        g = M.Gate([0, 1], [a, b])
+        return [a, b], lambda: list(g.tensors)
+    sites['Gate'] = s_gate
+
+    def s_cc():
+        a = c(4, 4)
+        cc = Ctl.ChainControl([2, 2])
+        cc.add_single_site_control(a, 0, 1)
+        return [a], lambda: [x for x in cc.get_single_site_controls(1, False) if x is not None]
+    sites['ChainControl.add_single_site_control'] = s_cc
+    tgt = inp.get('target') or ''
+    names = [n for n in sites if ('[' + n + ',') in tgt] or list(sites)
+    if any(n in ('_parse_state', 'Dynamics.add') for n in names):
+        names += [n for n in ('Dynamics', 'compute_dynamics result', 'compute_dynamics_with_field result') if n not in names]
+    bad = []
+    for n in names:
+        try:
+            args, probe = sites[n]()
+            before = [np.array(x) for x in probe()]
+            for a in args:
+                a *= 2.0
+                a += 1.0
+            after = [np.array(x) for x in probe()]
+        except Exception as e:      # noqa
+            bad.append({'site': n, 'unexpected exception': type(e).__name__ + ': ' + str(e)[:120]})
+            continue
+        if any(x.shape != y.shape or not np.array_equal(x, y) for x, y in zip(before, after)):
+            bad.append({'site': n, 'what is kept follows later in-place changes of the caller array': True})
+    return {'violates': bool(bad), 'sites': names, 'detail': bad[:8]}
+
+
 def _liou(system):
     # computed from the stored operators, bypassing the per-object memo
     from oqupy.system import _liouvillian
@@ -229,4 +333,4 @@ def parameterized_system_reuse(inp):
 
 
 # thorough tier (bounded native sweeps): (function, inputs, obligation of the open finding it reproduces or None)
-THOROUGH = [('history', {}, None), ('arrays', {}, None), ('parameterized_system_reuse', {}, None)]
+THOROUGH = [('history', {}, None), ('arrays', {}, None), ('stored_arrays', {}, None), ('parameterized_system_reuse', {}, None)]
